@@ -6,7 +6,7 @@ NAMESPACE = "Rbp.Props.C12"
 REQUIRED = ["auxpow_consumed", "threshold_exact", "thresholds_published"]
 LEAN_FILES = ["Rbp/Model/AuxPow.lean", "Rbp/Model/Block.lean", "Rbp/Model/Wire.lean"]
 RULE = ("hook `block` (real read_block vs Lean reader, every field incl. AuxPoW summary) and black-box csvdump/--verify on namecoin and dogecoin chains whose block versions sit below / at / above the "
-        "activation version, with parent coinbases legacy and segwit, branch lengths 0..40, arbitrary masks; the six other coins with the same high versions as negative control (no section read); "
+        "activation version, with parent coinbases legacy and segwit, branch lengths 0..40 and 252..300 (both sides of the one-byte CompactSize limit; 65536+ in thorough), arbitrary masks; the six other coins with the same high versions as negative control (no section read); "
         "each AuxPoW block is additionally compared with the same block stripped of its section (hash, txs, rows equal). non-trivial = block carries an AuxPoW section or sits at a threshold boundary")
 ASSUMPTIONS = ["on AuxPoW coins a block at/above the threshold carries a section (else the reader misparses, as any reader of the format would)"]
 
@@ -33,10 +33,16 @@ def hook_part(ctx, r):
         for v in versions:
             for k in range(ctx.n(3, 20)):
                 want = th is not None and v >= th
-                b = aux_block(r, coin, v, want, n1=r.choice([0, 1, 12, 32, 40, None]), n2=r.choice([0, 1, 5, None]), segwit_cb=r.random() < 0.3)
+                b = aux_block(r, coin, v, want, n1=r.choice([0, 1, 12, 32, 40, 252, 253, 254, 300, None]), n2=r.choice([0, 1, 5, 252, 253, 255, None]), segwit_cb=r.random() < 0.3)
                 raw = b.enc()
                 reqs.append("%s %d %s" % (coin, len(raw), raw.hex()))
                 meta.append((coin, v, b, want))
+    if ctx.thorough():
+        for coin in ("namecoin", "dogecoin"):
+            b = aux_block(r, coin, K.AUXPOW[coin], True, n1=0x10000, n2=0xffff)
+            raw = b.enc()
+            reqs.append("%s %d %s" % (coin, len(raw), raw.hex()))
+            meta.append((coin, K.AUXPOW[coin], b, True))
     impl = ctx.hook("block", reqs)
     model = ctx.model("block", reqs)
     strip_reqs, strip_meta = [], []
